@@ -336,9 +336,12 @@ def _run_corpus(ctx, mod):
         rec = json.load(open(os.path.join(cdir, fn)))
         case = rec["case"] if isinstance(rec, dict) and "case" in rec else rec
         env.reset()
+        ctx.count("corpus_cases")
+        if hasattr(mod, "one_case"):  # full treatment: class counters, non-triviality, failures
+            mod.one_case(ctx, case)
+            continue
         fails = mod.replay(case)
         ctx.evaluations += 1
-        ctx.count("corpus_cases")
         ctx.hashes.add(h64(case))
         for b, w in fails:
             ctx.fail(b, f"[corpus {fn}] {w}", case)
